@@ -412,6 +412,9 @@ func equalObject(left, right Object) bool {
 	case *Number:
 		// by value: the numeral a number was read from ("1.0", "01") is not part of its value
 		return l.Value == right.(*Number).Value
+	case *NumberSet:
+		// by value, like numbers: the numerals the members were read from do not matter
+		return reflect.DeepEqual(l.Value, right.(*NumberSet).Value)
 	case *List:
 		r := right.(*List)
 		if len(l.Value) != len(r.Value) {
